@@ -874,9 +874,11 @@ func (c *Context) Log10(d, x *Decimal) (Condition, error) {
 	if err != nil {
 		return 0, fmt.Errorf("ln: %w", err)
 	}
-	nc.Precision = c.Precision
+	// The final step runs under the caller's exponent limits and traps.
+	fc := c.WithPrecision(c.Precision)
+	fc.Rounding = RoundHalfEven
 
-	qr, err := nc.Mul(d, &z, decimalInvLn10.get(c.Precision+2))
+	qr, err := fc.Mul(d, &z, decimalInvLn10.get(c.Precision+2))
 	if err != nil {
 		return 0, err
 	}
